@@ -89,6 +89,7 @@ class C14(Check):
             shape['line_gaps'] = rng.choice([0, 0, 10])
             shape['plan'] = {'a_retries': rng.randrange(0, 4), 'b_retries': rng.randrange(0, 4),
                              'a_fails': rng.random() < 0.15, 'stop_chain': rng.randrange(0, 3), 'a_decorated': rng.random() < 0.6,
+                             'stop_decorated': rng.random() < 0.6,
                              'pollinterval': rng.choice([0.2, 1.0])}
             ops = []
             for _ in range(rng.randrange(1, 7)):
@@ -139,6 +140,7 @@ class C14(Check):
             def state_a(self, sm):
                 if sm.init:
                     sm.count = 0
+                    rec('run-begin')
                 sim.yield_point()
                 sm.count += 1
                 if plan['a_fails'] and sm.count > plan['a_retries']:
@@ -165,18 +167,21 @@ class C14(Check):
                 return self.final_status(IDLE, 'reached')
 
             def on_stop(self, sm):
-                rec('on-stop')
+                rec('on-stop', type(getattr(sm, 'cleanup_reason', None)).__name__)
                 if plan['stop_chain']:
                     sm.count = 0
                     return self.state_stopping
                 return None
 
-            @status_code(BUSY, 'braking')
             def state_stopping(self, sm):
                 sm.count += 1
                 if sm.count < plan['stop_chain']:
                     return Retry
                 return Finish
+
+            if plan.get('stop_decorated', True):
+                # else: a cleanup state without attached status (it does not change the status, as documented)
+                state_stopping = status_code(BUSY, 'braking')(state_stopping)
 
             def doPoll(self):
                 was = self._state_machine.is_active
@@ -270,6 +275,18 @@ class C14(Check):
                                          f'read m:status right after the changed reply gave {r["data"][0]} while the machine '
                                          f'was running (finished at {busy_until})'))
                     return res
+        # a run whose stop cleanup has begun ends with that cleanup: its states are not resumed
+        stopped_run = False
+        for e in ev:
+            if e[2] == 'run-begin':
+                stopped_run = False     # (a start requested before the cleanup began starts its run after it)
+            elif e[2] == 'on-stop' and len(e) > 3 and e[3] == 'Stop':
+                stopped_run = True      # (the same hook runs when a restart interrupts a run)
+            elif e[2] == 'finishing' and e[3] == 'reached' and stopped_run:
+                res.append(Violation('C14.stop-ignored', 'resumed-after-cleanup-began',
+                                     f'the stop cleanup of the run began, but later the run reached its goal: '
+                                     f'{[x[2:4] for x in ev][-8:]}'))
+                return res
         # final status
         if ctx['final_active']:
             res.append(Violation('C14.module-never-finished', 'active', f'machine still active at the end; status {ctx["final_status"]}'))
